@@ -4,6 +4,7 @@
 package scen
 
 import (
+	"errors"
 	"fmt"
 	"sync"
 	"time"
@@ -171,6 +172,24 @@ func (p *ProbeImpl) OnLevelChange(v int32) error {
 		return fmt.Errorf("level cannot be negative (%d)", v)
 	}
 	return nil
+}
+
+// ErrVictimBroken is what the server's writes to an unreachable subscriber
+// fail with.
+var ErrVictimBroken = errors.New("victim-broken: no route to host")
+
+// BreakWritesLater makes the writes of the server towards the client side
+// conn fail for good after n scheduling decisions: a party that became
+// unreachable without the server having noticed.
+func BreakWritesLater(env *core.Env, conn *simnet.Conn, n int) {
+	go func() {
+		for j := 0; j < n; j++ {
+			zzsim.Yield("h.break-delay")
+		}
+		zzsim.Event("the server's writes to one party start failing")
+		conn.Peer().FailWrites(ErrVictimBroken)
+		env.Probe("a-subscriber-became-unreachable")
+	}()
 }
 
 // LentImpl is an object hosted by a client and lent to a service.
